@@ -246,7 +246,14 @@ pub fn run(ctx: Ctx) -> ! {
                 let p = t.point(flat);
                 let Some(b) = (t.build)(&p) else { continue };
                 out.stats.programs += 1;
+                let t0 = std::time::Instant::now();
+                if std::env::var_os("VERIF_C01_TRACE").is_some() {
+                    eprintln!("[trace] {:?} {:?}", p, b.prog.listing());
+                }
                 let r = exec::eval_case(cfgs, &b.prog);
+                if t0.elapsed().as_secs_f64() > 2.0 {
+                    eprintln!("[slow case {:.1}s] {} {:?} {:?}", t0.elapsed().as_secs_f64(), t.name, p, b.prog.listing());
+                }
                 let mut cell = Cell { evaluated: true, core: 0 };
                 if r.ref_loaded {
                     out.stats.ref_loaded += 1;
